@@ -28,6 +28,7 @@ a node that is no type; `Vec<X>` / `Option<X>` / `Box<X>` keep `base_type = Cust
 structure Dep where
   to : Name
   map : Bool := false
+  arr : Bool := false        -- member `array of (array of X)`: the base atom is the text `Vec<X>` (array_item_type().to_rust_type())
 deriving DecidableEq, Repr, Inhabited
 
 structure Node where
@@ -40,7 +41,12 @@ deriving Repr, Inhabited
 
 def mapAtom (n : Name) : Name := "std::collections::HashMap<String, ".toList ++ n ++ ">".toList
 
-def Dep.atom (d : Dep) : Name := if d.map then mapAtom d.to else d.to
+def arrAtom (n : Name) : Name := "Vec<".toList ++ n ++ ">".toList
+
+def Dep.atom (d : Dep) : Name := if d.map then mapAtom d.to else if d.arr then arrAtom d.to else d.to
+
+/-- the member's base atom is the type name itself (so `build_graph` has an edge to it) -/
+def Dep.plain (d : Dep) : Bool := !d.map && !d.arr
 
 abbrev Graph := List Node
 
@@ -147,7 +153,7 @@ def structKind (k : Kind) : Bool := k != .enum && k != .alias
 
 /-- structs having a member whose base type is `t` (plain edges only: a map atom never names a struct) -/
 def preds (g : Graph) (t : Name) : List Name :=
-  (g.filter fun nd => structKind nd.kind && nd.deps.any fun d => !d.map && d.to == t).map (·.name)
+  (g.filter fun nd => structKind nd.kind && nd.deps.any fun d => d.plain && d.to == t).map (·.name)
 
 def stepSet (sc : Name → List Name) (R : List Name) : List Name :=
   R ++ ((R.flatMap sc).filter fun b => !R.contains b).eraseDups
@@ -165,7 +171,7 @@ def isStruct (g : Graph) (n : Name) : Bool := g.any fun nd => nd.name == n && st
 /-- which members get `ValidationAttribute::Nested` -/
 def nestedFlags (g : Graph) (nd : Node) : List Bool :=
   let R := nestedSet g
-  nd.deps.map fun d => !d.map && R.contains d.to
+  nd.deps.map fun d => d.plain && R.contains d.to
 
 /-- `update_struct`: a Schema struct that is ResponseOnly loses all validation attributes -/
 def cleared (u : Usage) (nd : Node) : Bool := nd.kind == .schema && usageOf u nd.name == .responseOnly
@@ -222,6 +228,7 @@ structure Ref where
   to : Name
   map : Bool
   vec : Bool
+  arr : Bool := false        -- below a Vec/Option that is itself inside a Vec: part of an opaque `Vec<X>` / `Option<X>` atom
 deriving DecidableEq, Repr, Inhabited
 
 structure Fld where
@@ -231,6 +238,8 @@ structure Fld where
   len : Bool := false
   sep : Bool := false
   sepStr : Bool := false
+  opt : Bool := false        -- the member type is `Option<..>`
+  hdrOpt : Bool := false     -- `impl TryFrom<&X> for http::HeaderMap` reads the member with `if let Some(value) = &headers.f`
   dur : Bool := false
 deriving Repr, Inhabited
 
@@ -264,7 +273,8 @@ deriving Repr, Inhabited
 inductive Viol
   | undefinedType (name : Name)
   | privateAcross (file name : Name)
-  | serde (item target : Name) (ser viaMap : Bool)
+  | serde (item target : Name) (ser viaMap viaArr : Bool)
+  | headerOptMismatch (item : Name)
   | nestedNoValidate (item target : Name)
   | lengthNeedsSer (item target : Name)
   | dupParam (item : Name)
@@ -302,8 +312,8 @@ def serdeViols (m : Mod) : List Viol :=
   m.types.flatMap fun it =>
     if it.kind == "alias".toList then [] else
     it.fields.flatMap fun fd => fd.refs.flatMap fun r =>
-      (if it.ser && !capable m (·.ser) 4 r.to then [Viol.serde it.name r.to true r.map] else []) ++
-      (if it.de && !capable m (·.de) 4 r.to then [Viol.serde it.name r.to false r.map] else [])
+      (if it.ser && !capable m (·.ser) 4 r.to then [Viol.serde it.name r.to true r.map r.arr] else []) ++
+      (if it.de && !capable m (·.de) 4 r.to then [Viol.serde it.name r.to false r.map r.arr] else [])
 
 def nameViols (m : Mod) : List Viol :=
   (m.mentions.flatMap fun (file, names) =>
@@ -319,7 +329,7 @@ def nameViols (m : Mod) : List Viol :=
 
 def validateViols (m : Mod) : List Viol :=
   m.types.flatMap fun it => it.fields.flatMap fun fd =>
-    (if fd.nested then fd.refs.flatMap fun r => if !r.map && !capable m (·.val) 4 r.to then [Viol.nestedNoValidate it.name r.to] else [] else []) ++
+    (if fd.nested then fd.refs.flatMap fun r => if !r.map && !r.arr && !capable m (·.val) 4 r.to then [Viol.nestedNoValidate it.name r.to] else [] else []) ++
     (if fd.len then fd.refs.flatMap fun r => if r.vec && !r.map && !capable m (·.ser) 4 r.to then [Viol.lengthNeedsSer it.name r.to] else [] else [])
 
 def endsWith (s suf : Name) : Bool := (s.drop (s.length - suf.length)) == suf && suf.length ≤ s.length
@@ -340,6 +350,7 @@ def shapeViols (m : Mod) : List Viol :=
     (if it.kind == "ctor".toList && hasDup it.params then [Viol.dupParam it.name] else []) ++
     (if it.kind == "struct".toList && hasDup (it.fields.map (·.name)) then [Viol.dupMember it.name] else []) ++
     (if it.kind == "enum".toList && hasDup it.variants then [Viol.dupMember it.name] else []) ++
+    (if it.kind == "struct".toList && it.fields.any (fun fd => fd.hdrOpt && !fd.opt) then [Viol.headerOptMismatch it.name] else []) ++
     (if it.kind == "struct".toList && it.fields.any (fun fd => fd.sep && !fd.sepStr) then [Viol.sepNonString it.name] else []) ++
     (if it.kind == "enum".toList && it.intoResp && it.evstream then [Viol.evstreamJson it.name] else []) ++
     (if it.kind == "fn".toList && it.file == "server".toList && it.bytesBody then [Viol.serverBytesBody it.name] else []) ++
@@ -362,7 +373,8 @@ def WF (m : Mod) : Bool := (violations m).isEmpty
 def classOf (m : Mod) : Viol → Option String
   | .undefinedType n => if m.schemas.contains n then some "KnownSchemaNotEmitted" else none
   | .privateAcross _ _ => if m.visFile then some "KnownFileVisModule" else none
-  | .serde _ _ _ viaMap => if viaMap then some "KnownSerdeMapEdge" else none
+  | .serde _ _ _ viaMap viaArr => if viaMap then some "KnownSerdeMapEdge" else if viaArr then some "KnownSerdeNestedArrayEdge" else none
+  | .headerOptMismatch _ => some "KnownRequiredHeaderDefault"
   | .lengthNeedsSer _ _ => some "KnownLengthNeedsSerialize"
   | .dupParam _ => some "KnownRequestParamClash"
   | .sepNonString _ => some "KnownSeparatorNonString"
@@ -388,7 +400,8 @@ def codeIn (c : Name) (l : List String) : Bool := l.any fun s => s.toList == c
 def explains : Viol → RErr → Bool
   | .undefinedType n, e => codeIn e.code ["E0425", "E0412", "E0433", "E0422"] && e.name == n
   | .privateAcross f n, e => codeIn e.code ["E0425", "E0412", "E0433", "E0422", "E0603"] && e.file == f && e.name == n
-  | .serde it tgt ser _, e =>
+  | .headerOptMismatch it, e => e.ikind == "impl".toList && e.iname == it && codeIn e.code ["E0308"]
+  | .serde it tgt ser _ _, e =>
       codeIn e.code ["E0277"] && e.iname == it && e.name == tgt && e.trait == (if ser then "Serialize".toList else "Deserialize".toList)
   | .lengthNeedsSer it tgt, e => codeIn e.code ["E0277"] && e.iname == it && e.name == tgt && e.trait == "Serialize".toList
   | .nestedNoValidate it tgt, e => codeIn e.code ["E0277", "E0599"] && e.iname == it && e.name == tgt
